@@ -11,7 +11,7 @@ for f in sorted(glob.glob(ROOT+'/.work/confirm-*.txt')):
         m=re.match(r'(\S+) demo-(with|without) exit=(\d+)',l.strip())
         if m: demo.setdefault(m.group(1),{})['%s_the_change_exit'%m.group(2)]=int(m.group(3))
 det={}
-for f in sorted(glob.glob(ROOT+'/.work/seedmut*.txt'), key=os.path.getmtime):
+for f in sorted(glob.glob(ROOT+'/.work/seedmut*.txt'), key=lambda f:(os.path.basename(f)=='seedmutD2.txt', os.path.getmtime(f))):  # D2 = reruns after strengthening, always last
     for l in open(f):
         m=re.match(r's?(C\d+[a-z]?-\d+)[a-z]? (C\d+) exit=(\d+) violations=(\d+)\s*(.*)',l.strip())
         if m:
